@@ -362,6 +362,8 @@ def build_evidence(P, tier, master, total, wall, n_new, known_lines, reported,
     cov = {
         "evaluations": evals,
         "distinct_nontrivial": len(total["digests"]),
+        "result_set_digest": hashlib.blake2b(b"".join(sorted(total["digests"])),
+                                             digest_size=12).hexdigest(),
         "rule": P.RULE,
         "samples": total["samples"][:4],
         "exhaustive": False,
